@@ -107,12 +107,12 @@ def funcref(q):
     return lambda run, name, **kw: FuncRef(q)
 
 
-def dict_of_lists(ksort, esort):
+def dict_of_lists(ksort, esort, default_empty=True):
     def mk(run, name, empty=False, **kw):
         K, E = sort_of(ksort), sort_of(esort)
         if empty:
-            return SDictOfLists(K, E, dom=z3.K(K, BoolVal(False)), lens=z3.K(K, IntVal(0)), name=name)
-        return SDictOfLists(K, E, name=name)
+            return SDictOfLists(K, E, dom=z3.K(K, BoolVal(False)), lens=z3.K(K, IntVal(0)), default_empty=default_empty, name=name)
+        return SDictOfLists(K, E, default_empty=default_empty, name=name)
     return mk
 
 
